@@ -1260,3 +1260,25 @@ PROPS['C07'] = dict(items=items_C07, custom_replay=replay_C07,
                     outside=OUTSIDE + ['comparison / hashing / formatting / From impls (delegation only, not modelled)', 'counter values within 64 of usize::MAX (cactusref aborts one step earlier than std)', 'unsized coercions, downcast, Pin'],
                     vacuity=lambda results, extra: None if sum(r.get('extra', {}).get('std_branches', 0) for r in results) > 0 else 'the std model was never compared',
                     replay_oracles=[])
+
+
+def replay_C14(P, native, rep, scratch):
+    """a pay-as-you-go violation is confirmed natively with the counting allocator: the same clone/drop performs
+    heap allocations in the real build (a reachability trace always allocates its work list)"""
+    import runcheck, scripts as scr, driver
+    cs = runcheck.concretise(rep['script'], rep['model'])
+    for op in cs['ops']:
+        if op['op'] in ('extras', 'wextras') and op['n'] > 100000:
+            return False, 'counterexample needs %d handles' % op['n'], cs
+    sc, out = driver.run_path(P, cs, [], None, False, set(), {'panics_ok': True, 'abort_ok': True})
+    mcost = [t for t in sc.trace if t[0] == 'cost']
+    res, rc, err = native.run([('replay', cs)], seed=0, timeout=60)
+    ncost = [t for t in res.get('replay', {}).get('trace', []) if t[0] == 'ret' and t[1] in ('cost_clone', 'cost_drop')]
+    dt = [t for t in res.get('replay', {}).get('trace', []) if t[0] == 'dtor']
+    for i, m in enumerate(mcost):
+        if (m[2][0] or m[2][1] or m[2][2]) and i < len(ncost) and isinstance(ncost[i][2], int) and ncost[i][2] > 0:
+            return True, 'native: %s #%d performs %d heap allocation(s) in the real build (model: %d allocation events, %d trace calls)' % (ncost[i][1], i, ncost[i][2], m[2][0], m[2][1]), cs
+    return False, 'native: no allocation observed at the clone/drop the model flags (native %r, model %r)' % (ncost, mcost), cs
+
+
+PROPS['C14']['custom_replay'] = replay_C14
